@@ -152,6 +152,10 @@ SERVERS = [
      "token_endpoint_auth_methods_supported": ["client_secret_basic", "none"]},
     {"scopes_supported": ["a"], "grant_types_supported": ["implicit"], "response_types_supported": ["token"],
      "token_endpoint_auth_methods_supported": ["client_secret_post"]},
+    # composite values are values of their own, not sets of words
+    {"scopes_supported": ["a", "b"], "response_types_supported": ["code id_token", "token", "code token id_token"],
+     "grant_types_supported": ["authorization_code", "urn:ietf:params:oauth:grant-type:device_code"],
+     "token_endpoint_auth_methods_supported": ["client_secret_basic", "none"]},
 ]
 URI_POOL = [None, "", "https://:8443/cb", "https://user@/cb", "https://user:pw@:443/cb", "https://user@c.example:8443/cb", "https://c.example/x", "http://c.example/x", "https://c.example/x#frag", "/relative", "c.example/x",
             "https:///nohost", "mailto:a@b", "app://callback", "https://c.example/x?y=1", "HTTPS://C.example"]
@@ -238,9 +242,12 @@ def gen_payload(rng):
     if rng.random() < 0.6:
         p["scope"] = rng.choice(["a", "a", "a", "a b", "b a", "", "a z", "openid", "  a  "])
     if rng.random() < 0.6:
-        p["grant_types"] = rng.choice([["authorization_code"], ["authorization_code"], ["refresh_token", "authorization_code"], ["implicit"], [], ["password"]])
+        p["grant_types"] = rng.choice([["authorization_code"], ["authorization_code"], ["refresh_token", "authorization_code"], ["implicit"], [], ["password"],
+                                       ["authorization_code refresh_token"], ["Authorization_code"], ["authorization_code "], ["urn:ietf:params:oauth:grant-type:device_code"],
+                                       ["device_code"], ["authorization"]])
     if rng.random() < 0.6:
-        p["response_types"] = rng.choice([["code"], ["code"], ["token"], ["code", "token"], [], ["id_token"]])
+        p["response_types"] = rng.choice([["code"], ["code"], ["token"], ["code", "token"], [], ["id_token"], ["code token"], ["token code"], ["code", "code token"],
+                                          ["code id_token"], ["id_token code"], ["code token id_token"], ["Code"], ["code "], ["cod"], ["code id_token", "token"]])
     if rng.random() < 0.6:
         p["token_endpoint_auth_method"] = rng.choice(["client_secret_basic", "client_secret_basic", "none", "none", "client_secret_post", "private_key_jwt", ""])
     if rng.random() < 0.3:
